@@ -3,7 +3,7 @@
     [world]s built from tables the harness measures on the real process. *)
 From Coq Require Import List ZArith NArith Bool Arith String.
 Import ListNotations.
-From DD Require Import Base.Sx Base.PyStr Pickle.Vm.
+From DD Require Import Base.Sx Base.PyStr Base.Value Pickle.Vm Pickle.Codec.
 Local Open Scope string_scope.
 
 Definition sx_ckind (k : ckind) : sx :=
@@ -123,3 +123,77 @@ Definition gk_code (g : gkind) : Z := match g with GType => 0 | GFunc => 1 | GPl
 Definition sx_default_world : sx :=
   SL [SL (sx_sort (map sx_str default_modules));
       SL (sx_sort (map (fun t => SL [sx_str (fst (fst t)); sx_str (snd (fst t)); SZ (gk_code (snd t))]) default_found))].
+
+(** * C14: payloads, JSON values, canonical encodings *)
+
+Fixpoint sx_pv (v : pv) : sx :=
+  match v with
+  | PAtom a => sx_atom a
+  | PFloatBits b => SL [SA "fb"; SZ b]
+  | PList xs => SL [SA "L"; SL (map sx_pv xs)]
+  | PTuple xs => SL [SA "T"; SL (map sx_pv xs)]
+  | PDict kvs => SL [SA "D"; SL (map (fun kv => SL [sx_atom (fst kv); sx_pv (snd kv)]) kvs)]
+  | PSet xs => SL [SA "S"; SL (sx_sort (map sx_atom xs))]
+  | PFrozen xs => SL [SA "F"; SL (sx_sort (map sx_atom xs))]
+  | PType m n => SL [SA "G"; sx_str m; sx_str n]
+  | PNoneType => SA "NoneType"
+  | POpcode tag i1 i2 j1 j2 old new => SL [SA "Op"; sx_str tag; SZ i1; SZ i2; SZ j1; SZ j2; sx_pv old; sx_pv new]
+  | PSetOrdered xs => SL [SA "SO"; SL (map sx_pv xs)]
+  end.
+Definition sx_opv (o : option pv) : sx := match o with Some v => sx_pv v | None => SA "raises" end.
+
+Fixpoint sx_jv (j : jv) : sx :=
+  match j with
+  | JNull => SA "None"
+  | JBool b => SL [SA "b"; sx_bool b]
+  | JInt z => SL [SA "i"; SZ z]
+  | JFloat t => SL [SA "f"; SZ t]
+  | JStr s => SL [SA "s"; sx_str s]
+  | JArr xs => SL [SA "A"; SL (map sx_jv xs)]
+  | JObj kvs => SL [SA "O"; SL (map (fun kv => SL [sx_str (fst kv); sx_jv (snd kv)]) kvs)]
+  end.
+Definition sx_ojv (o : option jv) : sx := match o with Some v => sx_jv v | None => SA "raises" end.
+
+(* [decoded payload or raises; resolved names] of a real dump run on the model *)
+Definition sx_load (w : world) (prog : list op) : sx :=
+  let '(out, tr) := vm_run w prog in
+  match out with
+  | Done o => SL [sx_opv (decode o); SL (resolved_of tr)]
+  | Err e => SL [sx_err_class e; SL (resolved_of tr)]
+  end.
+
+(* canonical encoding rendered one opcode per line: NAME <tab> argument *)
+Definition show_fl (f : fl) : string :=
+  match f with FHalf t => "h" ++ show_Z t | FBits b => "b" ++ show_Z b end.
+Definition show_op (o : op) : string :=
+  let a1 (n : string) (x : string) := n ++ tab ++ x in
+  match o with
+  | PROTO n => a1 "PROTO" (show_Z n) | FRAME n => a1 "FRAME" (show_Z n)
+  | STOP => "STOP" | POP => "POP" | POP_MARK => "POP_MARK" | DUP => "DUP" | MARK => "MARK"
+  | MEMOIZE => "MEMOIZE" | PUT i => a1 "PUT" (show_Z i) | BINPUT i => a1 "BINPUT" (show_Z i)
+  | LONG_BINPUT i => a1 "LONG_BINPUT" (show_Z i) | GET i => a1 "GET" (show_Z i)
+  | BINGET i => a1 "BINGET" (show_Z i) | LONG_BINGET i => a1 "LONG_BINGET" (show_Z i)
+  | NONE => "NONE" | NEWTRUE => "NEWTRUE" | NEWFALSE => "NEWFALSE"
+  | INT z => a1 "INT" (show_Z z) | INTB b => a1 "INTB" (if b then "1" else "0")
+  | BININT z => a1 "BININT" (show_Z z) | BININT1 z => a1 "BININT1" (show_Z z) | BININT2 z => a1 "BININT2" (show_Z z)
+  | LONG z => a1 "LONG" (show_Z z) | LONG1 z => a1 "LONG1" (show_Z z) | LONG4 z => a1 "LONG4" (show_Z z)
+  | FLOAT f => a1 "FLOAT" (show_fl f) | BINFLOAT f => a1 "BINFLOAT" (show_fl f)
+  | UNICODE s => a1 "UNICODE" (show_pystr s) | BINUNICODE s => a1 "BINUNICODE" (show_pystr s)
+  | SHORT_BINUNICODE s => a1 "SHORT_BINUNICODE" (show_pystr s) | BINUNICODE8 s => a1 "BINUNICODE8" (show_pystr s)
+  | BINBYTES s => a1 "BINBYTES" (show_pystr s) | SHORT_BINBYTES s => a1 "SHORT_BINBYTES" (show_pystr s)
+  | BINBYTES8 s => a1 "BINBYTES8" (show_pystr s)
+  | EMPTY_LIST => "EMPTY_LIST" | EMPTY_DICT => "EMPTY_DICT" | EMPTY_TUPLE => "EMPTY_TUPLE" | EMPTY_SET => "EMPTY_SET"
+  | APPEND => "APPEND" | APPENDS => "APPENDS" | SETITEM => "SETITEM" | SETITEMS => "SETITEMS" | ADDITEMS => "ADDITEMS"
+  | TUPLE => "TUPLE" | TUPLE1 => "TUPLE1" | TUPLE2 => "TUPLE2" | TUPLE3 => "TUPLE3" | FROZENSET => "FROZENSET"
+  | LIST => "LIST" | DICT => "DICT"
+  | GLOBAL m n => a1 "GLOBAL" (show_pystr m ++ tab ++ show_pystr n) | STACK_GLOBAL => "STACK_GLOBAL"
+  | INST m n => a1 "INST" (show_pystr m ++ tab ++ show_pystr n) | OBJ => "OBJ"
+  | NEWOBJ => "NEWOBJ" | NEWOBJ_EX => "NEWOBJ_EX" | REDUCE => "REDUCE" | BUILD => "BUILD"
+  | BINPERSID => "BINPERSID" | PERSID s => a1 "PERSID" (show_pystr s)
+  | EXT1 c => a1 "EXT1" (show_Z c) | EXT2 c => a1 "EXT2" (show_Z c) | EXT4 c => a1 "EXT4" (show_Z c)
+  end.
+Fixpoint show_ops (l : list op) : string :=
+  match l with [] => "" | o :: r => show_op o ++ nl ++ show_ops r end.
+(* several programs, separated by a line "--" *)
+Fixpoint show_progs (l : list (list op)) : string :=
+  match l with [] => "" | p :: r => show_ops p ++ "--" ++ nl ++ show_progs r end.
